@@ -171,3 +171,4 @@ def plan(tier):
     }
 
 RULE += (' Boundary trees also include chains of single children 40 / 120 / 300 levels deep; codec objects are created per case.')
+RULE += (" Content sizes include 8 MiB and above (every bit of the 31-bit length form set by some size) in both tiers.")
